@@ -51,15 +51,15 @@ STRATIFIED = True
 
 
 def strategy(ctx, shard=0):
-    if shard % 4 == 3:
+    if shard % 3 == 2:
         from vp import editmachine as em
 
-        return em.st_program(max_points=5, max_edits=20, samplers=False, forks=False).map(lambda c: dict(c, kind="edit", outlier_prior=max(c["outlier_prior"], 0.1)))
+        return em.st_program(max_points=6, max_edits=30, samplers=False, forks=False).map(lambda c: dict(c, kind="edit", outlier_prior=max(c["outlier_prior"], 0.1)))
     return _case()
 
 
 def budget(ctx):
-    return dict(max_examples=ctx.pick(2000, 24000), shards=16)
+    return dict(max_examples=ctx.pick(3200, 32000), shards=16)
 
 
 def warmup():
